@@ -35,11 +35,23 @@ func TestC35Seek(t *testing.T) {
 	tables, err := readJSONL(envStr("VERIF_TABLES", ""))
 	must(err)
 	c := &c35{seenSucc: map[string]bool{}}
-	c.t, err = NewTrace(filepath.Join(out, fmt.Sprintf("c35seek-%d.ndjson", seed)))
-	must(err)
+	nFiles := 0
+	rotate := func() {
+		if c.t != nil {
+			must(c.t.Close())
+		}
+		c.t, err = NewTrace(filepath.Join(out, fmt.Sprintf("c35seek-%d-%04d.ndjson", seed, nFiles)))
+		must(err)
+		c.n = 0
+		nFiles++
+	}
+	rotate()
 	cmp := cockroachkvs.Comparer
 	nSeeks, nTables := 0, 0
 	for ti, tb := range tables {
+		if c.t.N > 15000 {
+			rotate()
+		}
 		var tab, probes []SKey
 		for _, x := range tb["tab"].([]any) {
 			tab = append(tab, skeyOf(x))
